@@ -131,7 +131,7 @@ def build(rc):
             src, tgt = ms.PointCloud(f("src")), ms.PointCloud(f("tgt"))
             o = getattr(mt, c)(src, tgt)
         elif c in ("Homogeneous", "Affine", "Similarity"):
-            o = getattr(mt, c)(f("h"))
+            o = getattr(mt, c)(np.array(rc["h"], dtype=int) if rc.get("hdtype") == "int" else f("h"))
         elif c == "Translation":
             o = mt.Translation(f("t"))
         elif c == "UniformScale":
@@ -245,6 +245,9 @@ def gen_image(rng, c):
     else:
         vals = [float(rng.randint(0, 255)) if dtype == "uint8" else dy(rng, 32, 3) for _ in range(nch * npix)]
         rc["pixels"], rc["dtype"], rc["vdtype"] = nested(vals, [nch] + shape), dtype, dtype
+        if dtype != "float64" and rng.random() < 0.4:
+            # parameter vectors are float64 whatever the image stores (models hand float64 vectors to templates)
+            rc["vdtype"] = "float64"
         if c == "MaskedImage":
             kind, b = maskbits()
             rc["mask"], rc["maskkind"] = nested(b[::-1], shape), kind
@@ -309,7 +312,16 @@ def gen_xf(rng, c):
         rc["s"] = dy(rng, 12, 2, nonzero=True)
     elif c == "NonUniformScale":
         rc["s"] = [dy(rng, 12, 2, nonzero=True) for _ in range(d)]
-    elif c == "Rotation":
+    if c in ("Homogeneous", "Affine", "Similarity") and rng.random() < 0.3:
+        # a matrix typed with integer literals (np.array([[0, -1, 3], [1, 0, 4], [0, 0, 1]])): the object stores an
+        # integer array; parameter vectors are still arbitrary floats
+        rc["h"] = [[float(round(x)) for x in row] for row in rc["h"]]
+        if c == "Similarity" and d == 2 and rc["h"][0][0] == 0 and rc["h"][1][0] == 0:
+            rc["h"][1][0], rc["h"][0][1] = 1.0, -1.0
+        if c == "Similarity" and d == 3 and rc["h"][0][0] == 0:
+            rc["h"][0][0] = rc["h"][1][1] = rc["h"][2][2] = 2.0
+        rc["hdtype"] = "int"
+    if c == "Rotation":
         if d == 3:
             rc["R"] = quat_R(rng.choice(unit_quaternions()))
         else:
@@ -355,9 +367,13 @@ def gen_right_vector(rng, rc, n):
     if c == "BooleanImage":
         return np.array([rng.random() < 0.5 for _ in range(n)], dtype=bool)
     if c in IMAGES:
-        if rc["dtype"] == "uint8":
+        vd = rc.get("vdtype", rc["dtype"])
+        if vd == "uint8":
             return np.array([rng.randint(0, 255) for _ in range(n)], dtype="uint8")
-        return np.array([dy(rng, 32, 3) for _ in range(n)], dtype=rc["dtype"])
+        if vd != rc["dtype"]:
+            # float64 vector for a uint8 / float32 image: non-integral, negative, beyond 255, not float32-exact
+            return np.array([dy(rng, 600, 3) + rng.choice([0.0, 2.0 ** -30]) for _ in range(n)], dtype="float64")
+        return np.array([dy(rng, 32, 3) for _ in range(n)], dtype=vd)
     return np.array([dy(rng, 12, 2) for _ in range(n)], dtype=float)
 
 
